@@ -235,7 +235,11 @@ def elabUn (Γ : Env) (o : UnOp) (e : IExpr) (τ : ETy) : Res :=
   | .dereference => .error (.reject "PointersNotSupported")
   | .addressOf => .error (.reject "PointersNotSupported")
 
-/-- `get_non_vector_conversion_rank` on a non-vector layer; `none` = `None` (not numeric) -/
+/-- `get_non_vector_conversion_rank` on a non-vector layer; `none` = `None` (not numeric).  Since fix 80dd7f9
+    `most_significant_non_vector` first replaces an enum operand that meets a non-enum operand by its underlying type
+    (`Gen.TypingTables.mostSigNonVectorOperands`, body pinned by the translator); the model never ranks such a pair:
+    `elabArith` answers `unsupported enum operand` as soon as one operand is an enum, so `arithTarget` is only asked about
+    the pass-through arm `_ => (left, right)`. -/
 def nvRank : Layer → Option Nat
   | .scalar s => some (nonVectorRank s)
   | .enum _ => some enumRank
